@@ -96,7 +96,8 @@ NEIGHBOURS = [
     ("ADD const", "after", _f_const("ADD")), ("MUL const", "after", _f_const("MUL")),
     ("PAD", "before", None),
 ]
-_STATE = {"per_case": 2, "ctr": 0}
+LUT_NEIGHBOURS = ("TANH", "LOGISTIC", "LEAKY_RELU", "HARD_SWISH")
+_STATE = {"per_case": 3, "ctr": 0}
 
 
 def _one(rng, builder, dtype, ifm, post, embed, neighbour=None):
@@ -128,6 +129,9 @@ def _one(rng, builder, dtype, ifm, post, embed, neighbour=None):
     net.tgt = tgt          # index of the operator under test
     if nb is not None:
         net.neighbour = nb[0]
+        # only table-lookup activations are treated differently by the two accelerator classes (reserved LUT banks or not):
+        # these networks are compiled for one accelerator of each class
+        net.both_classes = nb[0] in LUT_NEIGHBOURS
     if post:
         post(b, net)
     return net
@@ -246,6 +250,23 @@ def cases(rng, thorough=False):
         net.inputs.append(net.ops[net.tgt].inputs[1])
     conv_mod("conv dynamic weights", dyn_weights)
     conv_mod("dwconv dynamic weights", dyn_weights, kind="dw")
+
+    # --force-symmetric-int-weights rewrites the weight zero points BEFORE the supported-operator check; an operator that is then left
+    # on the CPU (weights that are not constant) must be written with its own zero points (per tensor and per axis)
+    def dyn_asym(per_axis):
+        def f(net):
+            dyn_weights(net)
+            wt = net.tensors[net.ops[net.tgt].inputs[1]]
+            n = len(wt.scales) if per_axis else 1
+            wt.scales = list(wt.scales[:n]) if len(wt.scales) >= n else [wt.scales[0]] * n
+            wt.zps = [((7 * i) % 23) - 11 or 5 for i in range(n)]
+            net.extra_opts = ["--force-symmetric-int-weights"]
+        return f
+    for kind in ("conv", "dw"):
+        for per_axis in (False, True):
+            for dt in ("int8", "int16"):
+                conv_mod(f"{kind} dynamic asymmetric weights per_axis={per_axis} {dt} --force-symmetric-int-weights", dyn_asym(per_axis), kind=kind, dtype=dt,
+                         per_channel=per_axis)
 
     def w_dtype16(net):
         wt = net.tensors[net.ops[net.tgt].inputs[1]]
@@ -713,8 +734,6 @@ def cases(rng, thorough=False):
             net = _one(rng, bld, kw.get("dtype", "int8"), kw.get("ifm", (1, 8, 8, 4)), None, False, n)
             if net is not None:
                 nb = NEIGHBOURS[n]
-                # only table-lookup activations are treated differently by the two accelerator classes
-                net.both_classes = nb[0] in ("TANH", "LOGISTIC", "LEAKY_RELU", "HARD_SWISH")
                 add(f"core {name}" + (f" [{nb[0]} in front]" if nb[1] == "before" else f" [then {nb[0]}]"), net)
     # ---- small multi-operator networks --------------------------------------------------------------------------------------------------
     nmulti = 1200 if thorough else 80
